@@ -7,7 +7,12 @@
 //! A summary (JSON, one line, prefixed SUMMARY) is printed for the evidence file.
 
 mod absg;
+mod circ;
+mod eng_circ;
+mod eng_compose;
 mod eng_rules;
+mod eng_simp;
+mod eng_tensor;
 mod gens;
 mod util;
 
@@ -100,6 +105,236 @@ fn main() {
                 }
             }
             json!({"diagrams": diagrams, "tuples": st.tuples, "accepted": st.accepted, "rejected": st.rejected, "per_rule": st.per_rule})
+        }
+        "tensor" => {
+            let mut diagrams = 0usize;
+            let stride: usize = arg_num(&args, "--stride", 1);
+            let offset: usize = seed as usize % stride.max(1);
+            for fam in args.iter().enumerate().filter(|(_, a)| *a == "--fam").map(|(i, _)| args[i + 1].clone()) {
+                let f = parse_family(&fam);
+                let mut idx = 0usize;
+                gens::enum_family(&f, |a| {
+                    if idx % stride == offset {
+                        eng_tensor::record_diagram(&a, &mut tr);
+                        diagrams += 1;
+                    }
+                    idx += 1;
+                });
+            }
+            let nrand: usize = arg_num(&args, "--random", 0);
+            if nrand > 0 {
+                let cfg = parse_rand(&arg_val(&args, "--rand").unwrap_or_default());
+                let mut r = gens::rng(seed);
+                for _ in 0..nrand {
+                    let a = gens::random_diagram(&mut r, &cfg);
+                    eng_tensor::record_diagram(&a, &mut tr);
+                    diagrams += 1;
+                }
+            }
+            // circuits the circuit evaluator supports
+            let mut ncirc = 0usize;
+            let al = circ::Alphabet { pp: false, ..circ::Alphabet::unitary() };
+            for e in args.iter().enumerate().filter(|(_, a)| *a == "--enum").map(|(i, _)| args[i + 1].clone()) {
+                let p: Vec<&str> = e.split(',').collect();
+                let (n, maxlen) = (p[0].parse::<usize>().unwrap(), p[1].parse::<usize>().unwrap());
+                let mut al2 = al.clone();
+                if p.len() > 2 && p[2] == "small" {
+                    al2.oneq = vec!["S", "T", "NOT", "HAD"];
+                    al2.phs = vec![3];
+                }
+                let mut idx = 0usize;
+                circ::enum_circuits(n, maxlen, &al2, &mut |gs| {
+                    if idx % stride == offset {
+                        eng_tensor::record_circuit(&circ::ag_json(n, gs), &mut tr);
+                        ncirc += 1;
+                    }
+                    idx += 1;
+                });
+            }
+            let nrc: usize = arg_num(&args, "--random-circuits", 0);
+            let mut r = gens::rng(seed ^ 0xc1c);
+            use rand::Rng;
+            for _ in 0..nrc {
+                let n = r.random_range(1..=3usize);
+                let len = r.random_range(0..=8usize);
+                let mut al2 = al.clone();
+                if n < 3 { al2.threeq = vec![]; }
+                if n < 2 { al2.twoq = vec![]; }
+                let gs = circ::random_circuit(&mut r, n, len, &al2);
+                eng_tensor::record_circuit(&circ::ag_json(n, &gs), &mut tr);
+                ncirc += 1;
+            }
+            let ncmp = if arg_flag(&args, "--compare") { eng_tensor::record_compare(&mut tr) } else { 0 };
+            json!({"diagrams": diagrams, "circuits": ncirc, "comparisons": ncmp})
+        }
+        "compose" => {
+            // pairs (g, h) drawn from the union of: the listed families, the wire-only diagrams, random diagrams
+            let mut pool: Vec<serde_json::Value> = vec![];
+            if arg_flag(&args, "--wires") {
+                pool.extend(eng_compose::wire_diagrams());
+            }
+            for fam in args.iter().enumerate().filter(|(_, a)| *a == "--fam").map(|(i, _)| args[i + 1].clone()) {
+                gens::enum_family(&parse_family(&fam), |a| pool.push(a));
+            }
+            let nrand: usize = arg_num(&args, "--random", 0);
+            let cfg = parse_rand(&arg_val(&args, "--rand").unwrap_or_default());
+            let mut r = gens::rng(seed);
+            for _ in 0..nrand {
+                pool.push(gens::random_diagram(&mut r, &cfg));
+            }
+            let npairs: usize = arg_num(&args, "--pairs", 100);
+            use rand::Rng;
+            let mut done = 0usize;
+            if arg_flag(&args, "--allpairs") {
+                for g in &pool {
+                    for h in &pool {
+                        if g["outs"].as_array().unwrap().len() == h["ins"].as_array().unwrap().len() {
+                            eng_compose::record_pair(g, h, &mut tr, seed + done as u64);
+                            done += 1;
+                        }
+                    }
+                }
+            } else {
+                let mut tries = 0;
+                while done < npairs && tries < 200 * npairs {
+                    tries += 1;
+                    let g = &pool[r.random_range(0..pool.len())];
+                    let h = &pool[r.random_range(0..pool.len())];
+                    // composable pairs preferred; one in five arbitrary (append / single-diagram operations only)
+                    if g["outs"].as_array().unwrap().len() == h["ins"].as_array().unwrap().len() || tries % 5 == 0 {
+                        eng_compose::record_pair(g, h, &mut tr, seed + done as u64);
+                        done += 1;
+                    }
+                }
+            }
+            json!({"pool": pool.len(), "pairs": done})
+        }
+        "simp" => {
+            let mut counts = Default::default();
+            let mut diagrams = 0usize;
+            let stride: usize = arg_num(&args, "--stride", 1);
+            let offset: usize = seed as usize % stride.max(1);
+            let fns: Vec<&'static str> = match arg_val(&args, "--fns") {
+                Some(l) => eng_simp::SIMPS.iter().copied().filter(|s| l.split(',').any(|x| x == *s)).collect(),
+                None => eng_simp::SIMPS.to_vec(),
+            };
+            for fam in args.iter().enumerate().filter(|(_, a)| *a == "--fam").map(|(i, _)| args[i + 1].clone()) {
+                let f = parse_family(&fam);
+                let mut idx = 0usize;
+                gens::enum_family(&f, |a| {
+                    if idx % stride == offset {
+                        eng_simp::record_diagram(&a, &mut tr, &fns, &mut counts);
+                        diagrams += 1;
+                    }
+                    idx += 1;
+                });
+            }
+            let nrand: usize = arg_num(&args, "--random", 0);
+            if nrand > 0 {
+                let cfg = parse_rand(&arg_val(&args, "--rand").unwrap_or_default());
+                let mut r = gens::rng(seed);
+                for _ in 0..nrand {
+                    let a = gens::random_diagram(&mut r, &cfg);
+                    eng_simp::record_diagram(&a, &mut tr, &fns, &mut counts);
+                    diagrams += 1;
+                }
+            }
+            json!({"diagrams": diagrams, "changed_by": counts})
+        }
+        "tograph" | "circops" | "eqcheck" | "extract" => {
+            // --enum n,maxlen,<alphabet>   exhaustive;  --random N --nq a..b --len a..b   seeded random
+            let mut ncirc = 0usize;
+            let modes: Vec<&str> = vec!["plain", "simp", "postsel"];
+            let al_of = |s: &str| match s {
+                "all" => circ::Alphabet::all(),
+                "unitary" => circ::Alphabet::unitary(),
+                "small" => circ::Alphabet { oneq: vec!["S", "T", "NOT", "HAD"], phs: vec![3], threeq: vec![], ..circ::Alphabet::all() },
+                "small_unitary" => circ::Alphabet { oneq: vec!["S", "T", "NOT", "HAD"], phs: vec![3], ..circ::Alphabet::unitary() },
+                "ccz" => circ::Alphabet { oneq: vec!["T", "HAD"], twoq: vec!["CNOT", "SWAP"], phs: vec![], pp: false, special: vec!["PostSelect"], threeq: vec!["CCZ", "TOFF"] },
+                _ => panic!("alphabet"),
+            };
+            let stride: usize = arg_num(&args, "--stride", 1);
+            let offset: usize = seed as usize % stride.max(1);
+            let mut r = gens::rng(seed ^ 0x5eed);
+            let mut prev = circ::ag_json(1, &[]);
+            let mut r2 = gens::rng(seed ^ 0xe9);
+            let al_eq = circ::Alphabet { pp: false, ..circ::Alphabet::unitary() };
+            let clidir = format!("{out}_cli");
+            if engine == "extract" {
+                std::fs::create_dir_all(&clidir).unwrap();
+            }
+            let qbin = arg_val(&args, "--quizx-bin").unwrap_or_default();
+            let cli_every: usize = arg_num(&args, "--cli-every", 0);
+            let thorough = arg_flag(&args, "--thorough");
+            let mut count = 0usize;
+            let mut handle = |cj: serde_json::Value, tr: &mut Tr| {
+                count += 1;
+                if engine == "tograph" {
+                    eng_circ::record_tograph(&cj, tr, &modes);
+                } else if engine == "extract" {
+                    eng_circ::record_extract(&cj, tr, thorough);
+                    // the CLI reads QASM, and the QASM front end does not declare the pyzx-specific `pp` gate
+                    let has_pp = cj["gates"].as_array().unwrap().iter().any(|g| g["t"] == "ParityPhase");
+                    if cli_every > 0 && count % cli_every == 0 && !qbin.is_empty() && !has_pp {
+                        eng_circ::record_cli_opt(&cj, tr, &qbin, &clidir, count);
+                    }
+                } else if engine == "eqcheck" {
+                    let n = cj["n"].as_u64().unwrap() as usize;
+                    let gs: Vec<circ::AG> = cj["gates"].as_array().unwrap().iter().map(|g| circ::AG {
+                        t: circ::Alphabet::all().gates(3).iter().map(|x| x.t).chain(["ParityPhase"]).find(|t| *t == g["t"].as_str().unwrap()).unwrap(),
+                        qs: g["qs"].as_array().unwrap().iter().map(|x| x.as_u64().unwrap() as usize).collect(),
+                        ph: { let p = &g["ph"]; (p[0].as_i64().unwrap() * 4 / p[1].as_i64().unwrap()).rem_euclid(8) },
+                    }).collect();
+                    // independent pair with the previous circuit, then the constructed variants
+                    if prev["n"] == cj["n"] {
+                        eng_circ::record_eq_pair(&prev, &cj, "independent", tr);
+                    }
+                    for (n2, gs2, how) in eng_circ::eq_variants(n, &gs, &mut r2, &al_eq) {
+                        eng_circ::record_eq_pair(&cj, &circ::ag_json(n2, &gs2), how, tr);
+                    }
+                    if let Some(c2) = eng_circ::reextract(&cj) {
+                        eng_circ::record_eq_pair(&cj, &c2, "reextract", tr);
+                    }
+                    prev = cj;
+                } else {
+                    let rhs = if prev["n"] == cj["n"] { prev.clone() } else { cj.clone() };
+                    eng_circ::record_ops(&cj, &rhs, tr);
+                    prev = cj;
+                }
+            };
+            for e in args.iter().enumerate().filter(|(_, a)| *a == "--enum").map(|(i, _)| args[i + 1].clone()) {
+                let p: Vec<&str> = e.split(',').collect();
+                let (n, maxlen, al) = (p[0].parse::<usize>().unwrap(), p[1].parse::<usize>().unwrap(), al_of(p[2]));
+                let mut idx = 0usize;
+                circ::enum_circuits(n, maxlen, &al, &mut |gs| {
+                    if idx % stride == offset {
+                        handle(circ::ag_json(n, gs), &mut tr);
+                        ncirc += 1;
+                    }
+                    idx += 1;
+                });
+            }
+            let nrand: usize = arg_num(&args, "--random", 0);
+            let al = al_of(&arg_val(&args, "--alphabet").unwrap_or("all".into()));
+            let maxq: usize = arg_num(&args, "--maxq", 3);
+            let maxlen: usize = arg_num(&args, "--maxlen", 8);
+            use rand::Rng;
+            for _ in 0..nrand {
+                let n = r.random_range(1..=maxq);
+                let len = r.random_range(0..=maxlen);
+                let mut al2 = al.clone();
+                if n < 3 {
+                    al2.threeq = vec![];
+                }
+                if n < 2 {
+                    al2.twoq = vec![];
+                    al2.pp = false;
+                }
+                let gs = circ::random_circuit(&mut r, n, len, &al2);
+                handle(circ::ag_json(n, &gs), &mut tr);
+                ncirc += 1;
+            }
+            json!({"circuits": ncirc})
         }
         _ => {
             eprintln!("unknown engine {engine}");
